@@ -18,6 +18,7 @@ mod val;
 mod p_clvm;
 mod corpus;
 mod p_history;
+mod p_frontend;
 mod p_scoping;
 mod p_cldb;
 mod p_reader;
@@ -43,6 +44,7 @@ pub fn handle(job: &Value) -> Value {
         "repl" => p_repl::op_repl(job),
         "parse" => p_reader::op_parse(job),
         "cldb" => p_cldb::op_cldb(job),
+        "frontend" => p_frontend::op_frontend(job),
         "modrun" => p_repl::op_modrun(job),
         "ping" => json!({"pong": true}),
         other => json!({"error": format!("unknown op {other}")}),
@@ -61,6 +63,7 @@ fn main() {
         "replay-clvm" => p_clvm::replay(&rest),
         "drive-clvm" => p_clvm::drive(&rest),
         "drive-compile" => p_compile::drive(&rest),
+        "drive-frontend" => p_frontend::drive(&rest),
         "drive-scoping" => p_scoping::drive(&rest),
         "drive-cldb" => p_cldb::drive(&rest),
         "replay-cldb" => p_cldb::replay(&rest),
